@@ -3,6 +3,7 @@
 from __future__ import annotations
 
 import ast
+import math
 from typing import Dict, List, Optional, Set, Tuple
 
 from ..core import AnalysisError, Func, call_name, const_str, norm, short, walk_no_nested
@@ -1150,3 +1151,87 @@ def rule_ulp_of_the_whole_number(ctx, rep, rid: str) -> None:
             else:
                 rep.ok(rid, key, {"of": norm(a)})
     rep.analysed["ulp_sites"] = n_sites
+
+
+# ---- rounded number formats take their digits from the exact value of the double ------------------------
+
+
+def _power_of_ten(e: ast.AST, locals_: Dict[str, ast.AST]) -> bool:
+    if isinstance(e, ast.Name) and e.id in locals_:
+        e = locals_[e.id]
+    if isinstance(e, ast.BinOp) and isinstance(e.op, ast.Pow) and isinstance(e.left, ast.Constant) and e.left.value in (10, 10.0):
+        return True
+    if isinstance(e, ast.Call) and norm(e.func) in ("pow", "math.pow") and e.args and isinstance(e.args[0], ast.Constant) and e.args[0].value in (10, 10.0):
+        return True
+    return isinstance(e, ast.Constant) and isinstance(e.value, float) and e.value not in (0.0, 1.0) and abs(math.log10(abs(e.value)) - round(math.log10(abs(e.value)))) < 1e-12 and abs(e.value) != 1
+
+
+def rule_rounded_digits_exact(ctx, rep, rid: str) -> None:
+    """toFixed, toExponential and toPrecision ask for the decimal digits nearest to the EXACT value of the double
+    (ties to the larger).  1.45 is 1.4499999999999999555..., so toFixed(1) is 1.4; scaling by a power of ten in binary
+    floating point (1.45 * 10 == 14.5 exactly) moves the value onto the tie and rounds the other way, log10 of a
+    number just under a power of ten is the power's exponent, and the host's float formatting and round() break ties
+    to even.  The routines and the helpers that receive the number therefore compute in exact arithmetic (Decimal /
+    Fraction / integers) or take the host's shortest repr."""
+    rep.rule(rid, "the routines that print a Number to a requested count of digits (the Number-method table's rounding formats and the helpers they pass the number to) never scale a float by a power of ten, never take a float logarithm for the exponent, and never hand a float to the host's rounding (round, '%.nf'/format specs): digits come from exact arithmetic on the double's value", floor=3)
+    canon = ctx.facts.family_methods().get("_make_number_method", "_make_number_method")
+    vmcls = ctx.facts.vm_dispatcher()[0].cls
+    builder = ctx.tree.find_method(vmcls, canon)
+    if builder is None:
+        raise AnalysisError(f"{rid}: the Number method table builder was not found")
+    # the rounding formats: closures of the builder that take a digit count and produce text that depends on it
+    table = {}
+    for d in builder.own_nodes():
+        if isinstance(d, ast.Dict):
+            for k, v in zip(d.keys, d.values):
+                if isinstance(k, ast.Constant) and isinstance(v, ast.Name):
+                    table[k.value] = v.id
+    roots = [f for f in ctx.tree.funcs if f.parent is builder and not isinstance(f.node, ast.Lambda) and any(js in ("toFixed", "toExponential", "toPrecision") and py == f.name for js, py in table.items())]
+    if len(roots) < 3:
+        raise AnalysisError(f"{rid}: toFixed/toExponential/toPrecision not all found in the Number method table ({sorted(table)})")
+    fam: Dict[int, Func] = {id(f): f for f in roots}
+    q = list(roots)
+    while q:
+        g = q.pop()
+        for cs in ctx.cg.sites_of.get(id(g), []):
+            if cs.kind != "resolved":
+                continue
+            for t in cs.targets:
+                if id(t) in fam or isinstance(t.node, ast.Lambda) or t.module.name != "vm" or t.cls is not None and t.name.startswith("_make_"):
+                    continue
+                # helpers that receive a number (any argument at all): the conversion functions of values.py are not followed
+                if cs.call.args:
+                    fam[id(t)] = t
+                    q.append(t)
+    for f in fam.values():
+        locals_ = {a.targets[0].id: a.value for a in f.own_nodes() if isinstance(a, ast.Assign) and len(a.targets) == 1 and isinstance(a.targets[0], ast.Name)}
+        bad: List[Tuple[int, str]] = []
+        for x in f.own_nodes():
+            if isinstance(x, ast.BinOp) and isinstance(x.op, (ast.Mult, ast.Div)):
+                for a, b in ((x.left, x.right), (x.right, x.left)):
+                    if _power_of_ten(a, locals_) and not (isinstance(b, ast.Constant) or _power_of_ten(b, locals_)):
+                        # integer arithmetic on a value that is already an exact integer is fine: int(..) * 10**k
+                        if isinstance(b, ast.Call) and norm(b.func) == "int" or isinstance(x.op, ast.Mult) and isinstance(b, ast.Name) and isinstance(locals_.get(b.id), ast.Call) and norm(locals_[b.id].func) in ("int", "_nearest_multiple"):
+                            continue
+                        bad.append((x.lineno, f"`{short(x, 40)}` scales by a power of ten in floating point"))
+                        break
+            if isinstance(x, ast.AugAssign) and isinstance(x.op, (ast.Mult, ast.Div)) and _power_of_ten(x.value, locals_):
+                bad.append((x.lineno, f"`{short(x, 40)}` scales by a power of ten in floating point"))
+            if isinstance(x, ast.Call) and norm(x.func) in ("math.log10", "math.log"):
+                bad.append((x.lineno, f"`{short(x, 40)}` takes the exponent from a float logarithm"))
+            if isinstance(x, ast.Call) and norm(x.func) == "round":
+                bad.append((x.lineno, f"`{short(x, 40)}` rounds ties to even"))
+            if isinstance(x, ast.FormattedValue) and x.format_spec is not None:
+                spec = "".join(v.value for v in x.format_spec.values if isinstance(v, ast.Constant) and isinstance(v.value, str))
+                if spec and spec[-1] in "feEgG" and "." in spec:
+                    bad.append((x.lineno, f"the format spec `{spec}` rounds a float in the host (ties to even)"))
+            if isinstance(x, ast.Call) and norm(x.func) == "format" and len(x.args) == 2:
+                bad.append((x.lineno, f"`{short(x, 40)}` rounds in the host (ties to even)"))
+            if isinstance(x, ast.BinOp) and isinstance(x.op, ast.Mod) and isinstance(x.left, ast.Constant) and isinstance(x.left.value, str) and any(c in x.left.value for c in ("f", "e", "g")) and "%." in x.left.value:
+                bad.append((x.lineno, f"`{short(x, 40)}` rounds in the host (ties to even)"))
+        key = f"{ctx.facts.canon_qual(f.qual)}:exact-digits"
+        if not bad:
+            rep.ok(rid, key)
+        else:
+            line, why = bad[0]
+            rep.bad(rid, key, f"{f.qual} is on the path from toFixed/toExponential/toPrecision to the digits and {why}" + (f" (and {len(bad) - 1} more)" if len(bad) > 1 else "") + ": the exact value of the double is lost before it is rounded - (1.45).toFixed(1) is 1.4 and (10.235).toFixed(2) is 10.23 because the doubles lie below the tie, (2.5).toFixed(0) is 3 because ties go up", f"{f.module.rel}:{line}")
